@@ -453,6 +453,16 @@ func init() {
 	reg("unsolicited-garbage-method", "inject", "", false, unsolicited("FOOBAR rtsp://"+srvAddr+"/stream RTSP/1.0\r\nCSeq: 79\r\n\r\n"))
 	reg("unsolicited-request-star", "inject", "", false, unsolicited("OPTIONS * RTSP/1.0\r\n\r\n"))
 	reg("garbage-bytes", "inject", "", false, unsolicited("\x00\x01\xfe\xffnot rtsp at all\r\n\r\n"))
+	// a server that keeps talking but never answers: the response is withheld while something else
+	// arrives more often than the read timeout, for longer than any API call may take
+	chatty := func(raw string) fn {
+		return func(s *server, req *base.Request, r *resp, d *delivery) {
+			d.chatter, d.chatterEvery, d.chatterN, d.drop = []byte(raw), 4*time.Second, 25, true
+		}
+	}
+	reg("withheld-chatty-options", "delivery", "", true, chatty("OPTIONS rtsp://"+srvAddr+"/stream RTSP/1.0\r\nCSeq: 77\r\n\r\n"))
+	reg("withheld-chatty-foreign-cseq", "delivery", "", false, chatty("RTSP/1.0 200 OK\r\nCSeq: 1000\r\n\r\n"))
+	reg("withheld-chatty-frames", "delivery", "", false, chatty("$\x00\x00\x04\x80\x80\x80\x80"))
 	frameDev := func(ch int, declared int, sent int) fn {
 		return func(s *server, req *base.Request, r *resp, d *delivery) {
 			b := make([]byte, 4+sent)
